@@ -1,0 +1,56 @@
+//go:build verif
+
+package app
+
+import (
+	"time"
+
+	"github.com/f1bonacc1/process-compose/src/command"
+)
+
+// Verification seams, compiled only with -tags verif. A verification harness installs the
+// hook variables; when they are nil the behaviour is the same as without the tag.
+
+// VerifCommanderHook lets a harness substitute the OS command of a process.
+var VerifCommanderHook func(p *Process) command.Commander
+
+// VerifYieldHook is called at named points of the process life cycle (process name, label).
+var VerifYieldHook func(proc string, label string)
+
+// VerifStateHook is called on every status write (process name, new status).
+var VerifStateHook func(proc string, state string)
+
+// VerifBackoffScale, when non-zero, replaces one second of restart back-off.
+var VerifBackoffScale time.Duration
+
+func verifCommander(p *Process) command.Commander {
+	if VerifCommanderHook != nil {
+		return VerifCommanderHook(p)
+	}
+	return nil
+}
+
+func verifYieldP(p *Process, label string) {
+	if VerifYieldHook != nil {
+		VerifYieldHook(p.getName(), label)
+	}
+}
+
+func verifYieldR(label string) {
+	if VerifYieldHook != nil {
+		VerifYieldHook("", label)
+	}
+}
+
+func verifStateChange(p *Process, state string) {
+	if VerifStateHook != nil {
+		VerifStateHook(p.getName(), state)
+	}
+}
+
+func verifBackoffOverride(seconds int) (time.Duration, bool) {
+	if VerifBackoffScale != 0 {
+		return time.Duration(seconds) * VerifBackoffScale, true
+	}
+	return 0, false
+}
